@@ -134,8 +134,23 @@ func (fv *FV) kindEnabled(kind string) bool {
 	if fv.u == nil || fv.u.C == nil {
 		return false
 	}
+	if extraSafety[kind] {
+		return true
+	}
 	return fv.u.C.Safety[kind] || fv.u.C.Safety["all"]
 }
+
+// extraSafety (GOVC_EXTRA_SAFETY=nil,bounds,...): exploration aid that turns on
+// safety obligations for every function under contract (never used by ./check).
+var extraSafety = func() map[string]bool {
+	m := map[string]bool{}
+	for _, k := range strings.Split(os.Getenv("GOVC_EXTRA_SAFETY"), ",") {
+		if k != "" {
+			m[k] = true
+		}
+	}
+	return m
+}()
 
 func (fv *FV) oblige(e *Env, kind string, at ast.Node, desc string, cond Term) {
 	if fv.spec != nil || !fv.kindEnabled(kind) || e.dead {
